@@ -4,8 +4,8 @@
 (*                                                                         *)
 (* The only state is the commit order (a sequence of write maps) plus, per *)
 (* client ("worker"), the transaction it currently runs.  Every API call   *)
-(* is an invocation/response pair; Begin and Commit have one internal      *)
-(* linearization step (LPBegin, LPCommit) that lies between the two.       *)
+(* is an invocation/response pair; Begin and Commit take effect at one     *)
+(* instant between the two (BeginResp chooses it, LPCommit is it).         *)
 (* Nothing of the engine (memtables, wal, tables, timestamps, watermarks)  *)
 (* appears here: this module is what properties C01, C02-C08 and the       *)
 (* "result allowed" part of C12 *say*; verdicts are computed against it.   *)
@@ -37,6 +37,8 @@ Gone == 0                   \* deleted or never written
 
 Idle == [st |-> "idle", upd |-> FALSE, snap |-> 0, reads |-> {},
          w |-> [k \in Keys |-> Unw], res |-> "none"]
+\* a finished transaction remembers only that it is finished and whether it was read-only
+Done(x) == [Idle EXCEPT !.st = "done", !.upd = ws[x].upd]
 
 AInit == /\ commits = <<>>
          /\ ws = [x \in Workers |-> Idle]
@@ -63,17 +65,16 @@ Conflict(x) == \E i \in (ws[x].snap + 1)..Len(commits) :
 BeginInv(x, upd) ==
     /\ up
     /\ ws[x].st \in {"idle", "done"}
-    /\ ws' = [ws EXCEPT ![x] = [Idle EXCEPT !.st = "beginning", !.upd = upd]]
+    /\ ws' = [ws EXCEPT ![x] = [Idle EXCEPT !.st = "beginning", !.upd = upd, !.snap = Len(commits)]]
     /\ UNCHANGED <<commits, up>>
 
-LPBegin(x) ==                                     \* internal: the snapshot is fixed here
-    /\ ws[x].st = "beginning"
-    /\ ws' = [ws EXCEPT ![x].st = "begun", ![x].snap = Len(commits)]
-    /\ UNCHANGED <<commits, up>>
-
+\* The snapshot is fixed at some instant between the invocation and the response of Begin
+\* (the linearization point of Begin): it is the length the commit order had at that instant,
+\* i.e. any value between its length at the invocation (kept in snap meanwhile) and now.
 BeginResp(x) ==
-    /\ ws[x].st = "begun"
-    /\ ws' = [ws EXCEPT ![x].st = "active"]
+    /\ ws[x].st = "beginning"
+    /\ \E s \in ws[x].snap..Len(commits) :
+          ws' = [ws EXCEPT ![x].st = "active", ![x].snap = s]
     /\ UNCHANGED <<commits, up>>
 
 \* v is the value the implementation returned (Gone = not found)
@@ -104,32 +105,32 @@ PutEmptyKey(x, res) ==
 
 Discard(x) ==
     /\ ws[x].st \in {"active", "done"}
-    /\ ws' = [ws EXCEPT ![x].st = "done"]
+    /\ ws' = [ws EXCEPT ![x] = Done(x)]
     /\ UNCHANGED <<commits, up>>
 
+\* Commit of a finished transaction: documented error.  Commit without writes (read-only
+\* transactions included): always succeeds, no effect, nothing to linearize.
 CommitInv(x) ==
     /\ ws[x].st \in {"active", "done"}
-    /\ ws' = [ws EXCEPT ![x].st = IF @ = "done" THEN "decided" ELSE "committing",
-                        ![x].res = IF ws[x].st = "done" THEN "discarded" ELSE "none"]
+    /\ ws' = [ws EXCEPT ![x].st = IF ws[x].st = "done" \/ ~HasW(x) THEN "decided" ELSE "committing",
+                        ![x].res = IF ws[x].st = "done" THEN "discarded"
+                                   ELSE IF ~HasW(x) THEN "ok" ELSE "none"]
     /\ UNCHANGED <<commits, up>>
 
 LPCommit(x) ==                                    \* internal: validate and apply atomically
     /\ ws[x].st = "committing"
-    /\ IF ~HasW(x)
-       THEN /\ ws' = [ws EXCEPT ![x].st = "decided", ![x].res = "ok"]
-            /\ UNCHANGED commits
-       ELSE \/ /\ Conflict(x) \/ ~ExactConflict
-               /\ ws' = [ws EXCEPT ![x].st = "decided", ![x].res = "conflict"]
-               /\ UNCHANGED commits
-            \/ /\ ~Conflict(x)
-               /\ ws' = [ws EXCEPT ![x].st = "decided", ![x].res = "ok"]
-               /\ commits' = Append(commits, ws[x].w)
+    /\ \/ /\ Conflict(x) \/ ~ExactConflict
+          /\ ws' = [ws EXCEPT ![x].st = "decided", ![x].res = "conflict"]
+          /\ UNCHANGED commits
+       \/ /\ ~Conflict(x)
+          /\ ws' = [ws EXCEPT ![x].st = "decided", ![x].res = "ok"]
+          /\ commits' = Append(commits, ws[x].w)
     /\ UNCHANGED up
 
 CommitResp(x, res) ==
     /\ ws[x].st = "decided"
     /\ ws[x].res = res
-    /\ ws' = [ws EXCEPT ![x].st = "done"]
+    /\ ws' = [ws EXCEPT ![x] = Done(x)]
     /\ UNCHANGED <<commits, up>>
 
 \* View/Update after Close: ErrDBClosed, the closure is not run
